@@ -5,7 +5,8 @@ Driver for C20. A case is the recorded trace of one scenario run of the real log
 harness/cmd/hx-c20): the driver replays the writer goroutine's events through `wstep` (predicting every
 adapter write), every producer call through `pstep`, checks channel FIFO per goroutine on the dequeue
 order, and finally runs `checkRun` on the adapter output. `lv` lines are sequential probes of the level
-filter (`enabled`).
+filter (`enabled`), `at` lines of the decision of `AddTracer`; `ta` lines are the `AddTracer` calls recorded in a
+scenario (origin, configuration in force, outcome), replayed through the model's `addTracer`.
 -/
 namespace PB.Drv.C20
 open PB.Log
@@ -213,7 +214,9 @@ def handle (d : DS) (line : String) : DS × String :=
       | _ => none
     match nat? g, nat? i, nat? l, nat? o, parseKind k, (splitC segs ',').mapM (parseSeg d.cfgs), ents with
     | some gi, some ii, some li, some oi, some ki, some ss, some es =>
-      ({ d with items := (gi, { item := ii, lvl := li, org := oi, kind := ki, segs := ss, entries := es }) :: d.items }, "ok")
+      -- a collected entry travels as `text id * 8 + severity` (harness: entID): the lowest severity carried
+      let low := if ki == .tracer then es.foldl (fun m e => min m (e % 8)) li else li
+      ({ d with items := (gi, { item := ii, lvl := li, org := oi, kind := ki, segs := ss, entries := es, low := low }) :: d.items }, "ok")
     | _, _, _, _, _, _, _ => (d, "bad-op")
   | "p" :: _ :: _ :: toks => (d, pline toks)
   | "w" :: toks => wline d toks
@@ -257,6 +260,29 @@ def handle (d : DS) (line : String) : DS × String :=
       let c := startLevels pkgId pre l q
       (d, s!"thr {clampLvl (threshold c 0)} {clampLvl (threshold c 1)} {clampLvl (threshold c 2)} {c.glob}")
     | _, _, _ => (d, "bad-op")
+  | ["at", g, a, p, pk, mode, l] =>
+    -- probe of `AddTracer` on the real package: fresh context / nil context / context that carries a tracer;
+    -- one line of severity `l` goes through whatever came back and is submitted: a live tracer hands it to the
+    -- writer unconditionally, a nil tracer logs it as a plain call (`fastcheck`, then the filter of `log()`)
+    match parseLevels g a p, (if pk == "-" then some none else (nat? pk).map some : Option (Option Nat)), nat? l with
+    | some lv, some pk', some li =>
+      let answer (live : Bool) : String :=
+        s!"t={if live then 1 else 0} e={if live || (fastcheck lv li && enabled lv pk' li) then 1 else 0}"
+      if !isSeverity li then (d, "bad-op") else
+      match mode with
+      | "fresh" => (d, answer (addTracer lv false true pk' false))
+      | "nil" => (d, answer (addTracer lv true true pk' false))
+      | "existing" => (d, answer (addTracer lv false true pk' true))
+      | _ => (d, "bad-op")
+    | _, _, _ => (d, "bad-op")
+  | ["ta", c, o, ex, live] =>
+    -- recorded in a scenario: `AddTracer` called from origin `o` while configuration `c` was in force
+    match nat? c, nat? o, nat? ex, nat? live with
+    | some ci, some oi, some ei, some li =>
+      match d.cfgs.lookup ci with
+      | some lv => (d, if addTracer lv false true (some oi) (ei != 0) == (li != 0) then "ok" else "reject addtracer")
+      | none => (d, "bad-op")
+    | _, _, _, _ => (d, "bad-op")
   | ["lv", g, a, p, pk, l] =>
     match parseLevels g a p, nat? l with
     | some lv, some li =>
